@@ -11,15 +11,19 @@ def run(ctx):
     mx = 0
     viol, samples = [], []
     lost = 0
+    viol_crash = shm.crash_violations(parts)
     for p in parts:
         if p is None:
             lost += 1
+            continue
+        if p.get("_crashed"):
             continue
         for k in cap:
             cap[k] += p.get(k, 0)
         mx = max(mx, p.get("max_accesses_per_call", 0))
         viol += p["violations"]
         samples += p["samples"]
+    viol += viol_crash
     ctx.log("c18cap: %s max accesses %d" % (cap, mx))
     cov, sviol, ssamples = shm.run_sched(ctx, b, "C18", 8000 if q else 100000)
     ctx.log("sched: %d scenarios, odd-entry calls %d, max accesses %d" % (cov["scenarios"], cov["odd_entry_calls"], cov["max_accesses_per_call"]))
